@@ -7,11 +7,15 @@ from xsv import build, props  # noqa: E402
 
 
 def main():
-    fams = set()
-    for cfg in props.ELEM.values():
+    fams = set(["math", "memas"])
+    for cfg in list(props.ELEM.values()) + list(props.SIMPLE.values()):
         fams.update(cfg["families"])
     build.build_shims(sorted(fams))
     build.build_driver("d_elem")
+    for cfg in props.SIMPLE.values():
+        build.build_driver(cfg["driver"], **cfg.get("driver_kw", {}))
+    build.build_driver("d_alloc", uses_xsimd=True, extra=["-march=native"])
+    build.build_driver("d_alloc", uses_xsimd=True, extra=["-march=native", "-fsanitize=address", "-fno-omit-frame-pointer", "-g"])
     for f in getattr(props, "SETUP_EXTRA", []):
         f()
     print("setup ok")
